@@ -436,9 +436,17 @@ def r4_category(rep, ctx):
                 elif len(q[2]) == 1:
                     # only in the arm where the source has no category (empty quantity)
                     p = c
-                    while p is not None and not (isinstance(p, ast.If) and "GetCategory()" in ast.unparse(p.test)):
+                    own_cat = ("call", ("attr", ("field", "_quantity"), "GetCategory"), (), ())
+
+                    def cat_test(t):
+                        """+1: `if <own category>`, -1: `if not <own category>`, 0: something else"""
+                        if isinstance(t, ast.UnaryOp) and isinstance(t.op, ast.Not):
+                            return -cat_test(t.operand)
+                        return 1 if isinstance(t, (ast.Call, ast.Name)) and res.term(t) == own_cat else 0
+
+                    while p is not None and not (isinstance(p, ast.If) and cat_test(p.test)):
                         p = getattr(p, "_parent", None)
-                    ok = p is not None and any(c is x for b in p.orelse for x in ast.walk(b))
+                    ok = p is not None and any(c is x for b in (p.orelse if cat_test(p.test) > 0 else p.body) for x in ast.walk(b))
             if not ok and q is not None:
                 # conditional-expression / local form: every alternative is the own quantity or ObtainQuantity(unit[, category]);
                 # the category-less form is only acceptable next to the form that passes the source's category
